@@ -44,6 +44,18 @@ func c04Params(tier string) []*kvops.Params {
 		}
 		out = append(out, p)
 	}
+	// asynchronous replication: the replication calls a step starts are delivered right after it
+	for _, c := range []cf{{3, 2, 1 << 16, "EN"}, {3, 3, 200, "EO"}} {
+		alpha := alpha
+		if c.table < 1024 {
+			alpha = append(append([]clustermc.Ev{}, alpha...), ev("fill", 0, 0, ""))
+		}
+		out = append(out, &kvops.Params{
+			Name:  fmt.Sprintf("N=%d R=%d table=%d entry=%s async-replication", c.n, c.r, c.table, c.entry),
+			Opts:  simcluster.Opts{N: c.n, Replicas: c.r, WriteQ: 1, ReadQ: 1, Partitions: 7, TableSize: c.table, Async: true},
+			Entry: c.entry, DMap: "d", Keys: []string{"k"}, Alpha: alpha, Depth: depth, Mirror: true,
+		})
+	}
 	// non-initial start states (the key stored with an expiry and touched by a counter; a lock held):
 	// the same depth reaches two steps further into the histories that begin this way
 	for _, pre := range [][]clustermc.Ev{{ev("put", 0, 0, "PX"), ev("incr", 0, 1, "")}, {ev("lock", 0, 1, ""), ev("tick", 0, 1, "")}, {ev("put", 0, 0, ""), ev("expire", 0, 0, "")}} {
@@ -87,7 +99,7 @@ func init() {
 			perSpec = 1200
 		}
 		for _, p := range c04Params(c.Tier) {
-			if (p.Entry == "EO" || p.Entry == "EN" || p.Entry == "CC") && p.Opts.TableSize > 1024 && len(p.Pre) == 0 {
+			if (p.Entry == "EO" || p.Entry == "EN" || p.Entry == "CC") && p.Opts.TableSize > 1024 && len(p.Pre) == 0 && !p.Opts.Async {
 				traces = append(traces, kvops.ConformTraces(p, 3, perSpec)...)
 			}
 		}
